@@ -41,7 +41,7 @@ def cells(x, depth=0):
 
 
 class Rel(Contract):
-    prop = 'C02'
+    prop = ('C02', 'C17')      # both sources run with NumPy's index checks on every explored path (C17, clause 1)
     fname = None
     n = 1
     tol = 1e-9
@@ -150,6 +150,16 @@ rel('se3ToVec', 'se3ToVec', lambda g: [S.hat6(g.reals('V', 6))])
 rel('Adjoint', 'Adjoint', lambda g: [se3(g, 'T')])
 rel('ScrewToAxis', 'ScrewToAxis', lambda g: [vec(g, 'q', 3), vec(g, 's', 3), g.real('h')])
 rel('AxisAng6', 'AxisAng6', lambda g: [_nz6(g, vec(g, 'V', 6))])
+
+
+def _pure_translation(g):
+    v = g.reals('v', 3, scale=2.0)
+    g.require(v[0] * v[0] + v[1] * v[1] + v[2] * v[2] > 1e-4)
+    z = 0 * v[0]
+    return [g.arr([z, z, z, v[0], v[1], v[2]])]
+
+
+rel('AxisAng6_pure_translation', 'AxisAng6', _pure_translation, doc='AxisAng6 on a pure translation (angular part zero: the fallback branch)')
 rel('MatrixExp6', 'MatrixExp6', lambda g: [S.hat6(g.reals('V', 6, scale=2.0))])
 rel('MatrixLog6', 'MatrixLog6', lambda g: [se3(g, 'T')], max_paths=120)
 rel('DistanceToSO3', 'DistanceToSO3', lambda g: [g.arr([g.reals('m%d' % i, 3) for i in range(3)])])
